@@ -16,6 +16,7 @@ import (
 	"os"
 	"path/filepath"
 	"strings"
+	"time"
 
 	"github.com/LemoFoundationLtd/lemochain-core/store"
 )
@@ -83,6 +84,10 @@ func c08ErrName(err error) string {
 	return "err:other(" + strings.ReplaceAll(s, " ", "_") + ")"
 }
 
+// set when the real scanFile did not return within 30 s; the sweep is abandoned (the stuck goroutine
+// dies with the process)
+var c08ScanHung bool
+
 type c08Rec struct {
 	Flg uint32
 	Key []byte
@@ -101,10 +106,24 @@ func c08Scan(path string, data []byte) (status string, recs []c08Rec, line strin
 	var out []*store.Inject
 	var ret, off int64
 	var err error
-	status = Safe(func() string {
-		out, ret, off, err = store.VerifScanFile(path)
-		return c08ErrName(err)
-	})
+	if c08ScanHung {
+		return "hang", nil, "skipped (an earlier scan never returned)"
+	}
+	done := make(chan struct{})
+	go func() {
+		defer close(done)
+		status = Safe(func() string {
+			out, ret, off, err = store.VerifScanFile(path)
+			return c08ErrName(err)
+		})
+	}()
+	select {
+	case <-done:
+	case <-time.After(30 * time.Second):
+		// the real scan loop does not come back (changed code under test): report once, stop sweeping
+		c08ScanHung = true
+		return "hang", nil, "hang"
+	}
 	var sb strings.Builder
 	fmt.Fprintf(&sb, "%s ret=%d off=%d n=%d", status, ret, off, len(out))
 	for _, r := range out {
@@ -214,7 +233,7 @@ func c08(c *Ctx) {
 	// ---------- (a) byte level ----------
 	c.Op("headlen", fmt.Sprintf("%d", store.RecordHeadLength))
 	nCases := c.N
-	for it := 0; it < nCases; it++ {
+	for it := 0; it < nCases && !c08ScanHung; it++ {
 		nrec := 1 + c.Rnd.Intn(3)
 		var good []c08Rec
 		var file []byte
@@ -250,7 +269,7 @@ func c08(c *Ctx) {
 		}
 
 		// EVERY truncation offset of the last record
-		for cut := 0; cut <= len(rawLast); cut++ {
+		for cut := 0; cut <= len(rawLast) && !c08ScanHung; cut++ {
 			var class string
 			switch {
 			case cut == 0 || cut == len(rawLast):
@@ -394,6 +413,10 @@ func c08(c *Ctx) {
 		c.Count("garbage:" + st)
 	}
 
+	if c08ScanHung {
+		c08Fail(c, "c08/scan-hang", "FileQueue.scanFile did not return within 30 s on a file of a few KB; byte-level sweep and store oracles abandoned", nil)
+		return
+	}
 	// ---------- (b) direct oracles on the real store ----------
 	c08Oracles(c, base)
 }
